@@ -1,5 +1,12 @@
-"""Constants of afkak/partitioner.py used by Afkak/Murmur.lean and Afkak/Partitioner.lean."""
+"""Constants of afkak/partitioner.py used by Afkak/Murmur.lean and Afkak/Partitioner.lean, plus the
+model TERM of `pure_murmur2` translated from its AST (harness/lib/pure_translate.py): the definition
+`Afkak.Consts.genPureMurmur2 : List UInt8 → Nat → Option Nat` (`none` = IndexError) is regenerated on
+every run and proved equal to the hand-written `Afkak.Murmur.pureMurmur2` for all inputs
+(AfkakProofs/MurmurGen.lean, obligation C18_generated_murmur_eq_model).  A change to the function's
+statements changes the term; anything outside the translator's subset raises (= a broken
+correspondence), nothing is dropped."""
 from harness.extract_consts import assigned, bitand_consts, default_arg
+from harness.lib.pure_translate import translate_function
 
 
 def extract(src):
@@ -8,10 +15,15 @@ def extract(src):
     masks = bitand_consts(part)
     if len(masks) != 1:
         raise KeyError("HashedPartitioner.partition: expected one `& const`")
+    # byte_array: bytearray (List UInt8); seed: a non-negative int (the model's `Nat`)
+    gen_type, gen_term = translate_function(f, [("byte_array", "bytes"), ("seed", "nat")])
     return [
         ("murmurM", assigned(f, "m")),
         ("murmurR", assigned(f, "r")),
         ("murmurSeed", default_arg(f, "seed")),
         ("murmurMask32", assigned(f, "mod32bits")),
         ("hashedPositiveMask", masks[0]),
+        ("/-- `pure_murmur2(byte_array, seed)` translated statement by statement from the AST of\n"
+         "afkak/partitioner.py by harness/lib/pure_translate.py; `none` = IndexError. -/",),
+        ("genPureMurmur2", gen_type, gen_term),
     ]
